@@ -181,3 +181,55 @@ def validate(rep, pid, scen, obs, label, info=1, refs=None, fields=None, kindfn=
     import shutil
     shutil.rmtree(w, ignore_errors=True)
     return nm
+
+
+def event_traces(rep, pid, scen, label, config='default'):
+    """Trace validation proper: hook events of the real library for each scenario must be a behaviour of
+    ScpiInputLoop.tla (TVInputLoop). Returns number of rejected traces that are not the known deviation."""
+    r0 = lib.tlc('MCInputLoop', 'MCInputLoop.cfg', timeout=1200, xmx='6g')
+    rep.add_tlc('MCInputLoop', r0, 'model checking of the input-loop state machine: TypeOK (bounds), PathEmptyAtMessageStart, and under fairness Returns (every input call returns)')
+    if r0.violations:
+        rep.broken.append('ScpiInputLoop violates %s' % r0.violations)
+    exe = lib.build('drv_parser', ['drv_parser.c'], config=config)
+    w = lib.workdir('ev' + pid + label)
+    with open(w + '/s.txt', 'w') as f:
+        for sc in scen:
+            f.write(driver_text(sc))
+    d = lib.run_driver(exe, [w + '/s.txt', w + '/o.ndjson'], env={'DRV_EVENTS': '1'}, timeout=900)
+    recs = []
+    if os.path.exists(w + '/o.ndjson'):
+        for sc, ln in zip(scen, open(w + '/o.ndjson', errors='replace')):
+            try:
+                o = json.loads(ln)
+            except ValueError:
+                break
+            recs.append(dict(table=sc['table'], buf=sc['buf'], chunks=sc['chunks'], ev=o.get('ev', [])))
+    if d['rc'] != 0 or d['timeout']:
+        rep.violation('exec:event-run-failed', dict(rc=d['rc'], done=len(recs), stderr=d['stderr'].decode(errors='replace')[-2000:]))
+    bad = 0
+    CH = 4000
+    for c0 in range(0, len(recs), CH):
+        part = recs[c0:c0 + CH]
+        p = w + '/t.ndjson'
+        with open(p, 'w') as f:
+            for r in part:
+                f.write(json.dumps(r, separators=(',', ':')) + '\n')
+        r = lib.tlc('TVInputLoop', 'TVInputLoop.cfg', workers=8, env={'TRACE': p}, timeout=1200, xmx='4g')
+        rep.add_tlc('TVInputLoop:%s:%d' % (label, c0 // CH), r, 'hook-event traces validated as behaviours of ScpiInputLoop')
+        acc = set(x[1] for x in r.prints if x[0] == 'ACCEPTED')
+        qnl = set(x[1] for x in r.prints if x[0] == 'QNL')
+        for k in range(1, len(part) + 1):
+            if k in acc:
+                continue
+            rec = part[k - 1]
+            detail = dict(chunks=[bytes(c).decode('latin1') for c in rec['chunks']], events=rec['ev'][:60])
+            if k in qnl:
+                rep.violation('quoted-newline-split' if pid == 'C08' else '', detail) if pid == 'C08' else None
+            else:
+                bad += 1
+                rep.violation('event-trace-not-a-behaviour', detail)
+    rep.cov['event_traces'] = rep.cov.get('event_traces', 0) + len(recs)
+    rep.cov['traces_validated_against_impl'] += len(recs)
+    import shutil
+    shutil.rmtree(w, ignore_errors=True)
+    return bad
